@@ -60,7 +60,6 @@ def run_model(cases, fn="diag_all", shard=200, timeout=900):
             if len(res) != len(sub):
                 res = ["not-evaluated: %d verdicts for %d cases: %s" % (len(res), len(sub), (res or ["?"])[0][:200])] * len(sub)
             out.extend(res)
-    rundir = os.path.join(vlib.COQ, "Run")
     return out
 
 
@@ -129,7 +128,7 @@ def run(ctx):
                        "Python float inputs transmitted as exact rationals"]
     if proved:
         verdicts = run_model(cases)
-        keys = run_model([], fn="(fun _ : list c14case => model_row_keys)")
+        keys = vlib.run_diag("C14_keys", PRE, CT, [], "(fun _ : list c14case => model_row_keys)")
         ctx.cov["evaluations"] = len(cases)
         ctx.cov["distinct_nontrivial"] = sum(1 for m in meta if isinstance(m["outcome"], list))
         if sorted(keys) != sorted(data["row_keys"]):
